@@ -237,7 +237,8 @@ def _lhw_miss_family(ctx, n):
   except Exception:  # pylint: disable=broad-except
     return 'both-low-weight'
   ctx.count('lhw_misses_traced')
-  if st and not res[0] and st[0] == st[1] and st[2] >= n.bit_length():
+  # (2500 is the documented default of the cutoff parameter)
+  if st and not res[0] and st[0] == st[1] == 2500 and st[2] >= n.bit_length():
     return 'both-low-weight/abandoned-at-cutoff'
   return 'both-low-weight'
 
@@ -531,7 +532,13 @@ def finalize(agg, tier):
                    'factored (below the rate threshold)' % (miss, n, fam),
                    'data': {'miss': miss, 'n': n}})
   fam = 'both-low-weight/abandoned-at-cutoff'
-  if c.get('miss:' + fam):
+  tot = c.get('tried:both-low-weight', 0) + c.get('tried:' + fam, 0)
+  v = rates.check_max_rate('C05', 'lhw-abandoned-at-cutoff-too-often',
+                           c.get('miss:' + fam, 0), tot, p_max=0.01,
+                           alpha=1e-7) if tot else None
+  if v:
+    viol.append(v)
+  elif c.get('miss:' + fam):
     viol.append({'mech': 'lhw-abandoned-at-cutoff',
                  'msg': '%d moduli with two primes of weight <= 32 (set bits '
                  'not clustered) were not flagged: the search stopped at the '
